@@ -516,7 +516,7 @@ impl Engine for BuggifyEngine {
 
     fn jobs(&self, tier: Tier) -> u64 {
         match tier {
-            Tier::Quick => 384,
+            Tier::Quick => 640,
             Tier::Thorough => 6000,
         }
     }
